@@ -8,6 +8,7 @@ require (
 	github.com/cossacklabs/themis/gothemis v0.14.0
 	github.com/jackc/pgx/v5 v5.7.2
 	github.com/sirupsen/logrus v1.6.0
+	go.etcd.io/bbolt v1.3.6
 )
 
 require (
